@@ -579,18 +579,20 @@ theorem Inv.exists_exact {q : Quirks} {st : St σ} (hI : Inv q st) (hre : st.g.r
   · exact absurd rfl (hn ws hs)
   · exact absurd rfl (hn wt ht)
 
-/-- what `add_to_graph` leaves untouched: the nodes, and everything in the heap but the field contents -/
+/-- what `add_to_graph` leaves untouched: no node goes away (the role taker of a source or target may be wrapped on the
+way), and everything in the heap but the field contents and the ghost list of registered labels stays -/
 structure Frame (st st' : St σ) : Prop where
-  nodes : st'.g.nodes = st.g.nodes
-  heap : st'.h = { st.h with fields := st'.h.fields }
+  nodes : ∀ w ∈ st.g.nodes, w ∈ st'.g.nodes
+  heap : st'.h = { st.h with fields := st'.h.fields, epoch := st'.h.epoch }
+  /-- the ghost list of registered labels only grows -/
+  epoch : ∀ o ∈ st.h.epoch, o ∈ st'.h.epoch
 
 theorem Frame.live {st st' : St σ} (h : Frame st st') : st'.h.live = st.h.live := by rw [h.heap]
 theorem Frame.used {st st' : St σ} (h : Frame st st') : st'.h.used = st.h.used := by rw [h.heap]
-theorem Frame.epoch {st st' : St σ} (h : Frame st st') : st'.h.epoch = st.h.epoch := by rw [h.heap]
 
-theorem Frame.refl (st : St σ) : Frame st st := ⟨rfl, rfl⟩
+theorem Frame.refl (st : St σ) : Frame st st := ⟨fun _ h => h, rfl, fun _ h => h⟩
 theorem Frame.trans {s1 s2 s3 : St σ} (h1 : Frame s1 s2) (h2 : Frame s2 s3) : Frame s1 s3 :=
-  ⟨h2.nodes.trans h1.nodes, by rw [h2.heap, h1.heap]⟩
+  ⟨fun w hw => h2.nodes w (h1.nodes w hw), by rw [h2.heap, h1.heap], fun o ho => h2.epoch o (h1.epoch o ho)⟩
 
 theorem foldl_pres {α : Type} (P : St σ → Prop) (f : St σ → α → St σ) (Q : α → Prop)
     (hstep : ∀ st x, P st → Q x → P (f st x)) :
@@ -614,89 +616,145 @@ theorem foldl_pres {α : Type} (P : St σ → Prop) (f : St σ → α → St σ)
 @[simp] theorem write_epoch (S : Schema) (h : Heap) (f : Fld) (s t : Obj) : (h.write S f s t).epoch = h.epoch := by
   unfold Heap.write; split <;> (try split) <;> rfl
 
-/-- "keeps the registry consistent and touches neither the nodes nor the set of live instances" -/
+/-- "keeps the registry consistent, removes no node and does not touch the set of live instances" -/
 def Keeps (q : Quirks) (st0 : St σ) (s : St σ) : Prop := Inv q s ∧ Frame st0 s
 
+theorem Keeps.refl {q : Quirks} {s : St σ} (hI : Inv q s) : Keeps q s s := ⟨hI, Frame.refl s⟩
+theorem Keeps.trans {q : Quirks} {s1 s2 s3 : St σ} (h1 : Keeps q s1 s2) (h2 : Keeps q s2 s3) : Keeps q s1 s3 :=
+  ⟨h2.1, h1.2.trans h2.2⟩
+
 /-- what the inference steps need of `add_to_graph` of an inferred relation -/
-def RecOK (q : Quirks) (st0 : St σ) (rec : St σ → Fld → W → W → St σ) : Prop :=
-  ∀ s f ws wt, Keeps q st0 s → ws ∈ st0.g.nodes → wt ∈ st0.g.nodes → Keeps q st0 (rec s f ws wt)
+def RecOK (q : Quirks) (rec : St σ → Fld → W → W → St σ) : Prop :=
+  ∀ s f ws wt, Inv q s → ws ∈ s.g.nodes → wt ∈ s.g.nodes → Keeps q s (rec s f ws wt)
 
-theorem keeps_inferSupers {q : Quirks} {S : Schema} {st0 : St σ} {rec} (hrec : RecOK q st0 rec) (s : St σ)
-    (f : Fld) (ws wt : W) (hk : Keeps q st0 s) (hs : ws ∈ st0.g.nodes) (ht : wt ∈ st0.g.nodes) :
-    Keeps q st0 (inferSupers S rec s f ws wt) := by
+/-- folding `rec` over a list of items whose wrappers are nodes of the state the fold starts from -/
+theorem keeps_foldl {α : Type} {q : Quirks} (fm : St σ → α → St σ) (s : St σ) (Q : α → Prop)
+    (hstep : ∀ s' x, Keeps q s s' → Q x → Keeps q s' (fm s' x)) (l : List α) (hI : Inv q s) (hQ : ∀ x ∈ l, Q x) :
+    Keeps q s (l.foldl fm s) :=
+  foldl_pres (Keeps q s) fm Q (fun s' x h hx => h.trans (hstep s' x h hx)) l s (Keeps.refl hI) hQ
+
+theorem takerOf_live {S : Schema} {h : Heap} {o : Obj} {c : Cls} {x : HObj} (hx : h.takerOf S o c = some x) :
+    x ∈ h.live := by
+  unfold Heap.takerOf at hx
+  split at hx
+  · cases hx
+  · split at hx
+    · cases hx
+    · exact (find_some hx).1
+
+/-- `ensure_wrapped_instance` in the middle of an inference -/
+theorem keeps_ensureSt {q : Quirks} {a : Alloc σ} (ha : a.Valid) {s : St σ} (hI : Inv q s) (x : HObj)
+    (hx : x ∈ s.h.live) :
+    Keeps q s (ensureSt a s x).1 ∧ (ensureSt a s x).2 ∈ (ensureSt a s x).1.g.nodes ∧
+    (ensureSt a s x).2.toR = ⟨x.obj, x.cls⟩ := by
+  have e := hI.ensure ha x hx
+  unfold ensureSt
+  refine ⟨⟨e.1, ⟨e.2.2.2.2.1, ?_, ?_⟩⟩, e.2.1, ?_⟩
+  · rfl
+  · intro o ho; exact (mem_register _ _ _).2 (Or.inl ho)
+  · simp only [W.toR, e.2.2.1, e.2.2.2.1]
+
+theorem keeps_inferTakerSupers {q : Quirks} {S : Schema} {a : Alloc σ} (ha : a.Valid) {rec} (hrec : RecOK q rec)
+    (s : St σ) (f : Fld) (ws wt : W) (hI : Inv q s) (ht : wt ∈ s.g.nodes) :
+    Keeps q s (inferTakerSupers S a rec s f ws wt) := by
+  unfold inferTakerSupers
+  split
+  · exact Keeps.refl hI
+  split
+  · exact Keeps.refl hI
+  · rename_i x hx
+    have e := keeps_ensureSt ha hI x (takerOf_live hx)
+    refine e.1.trans ?_
+    exact keeps_foldl _ _ (fun _ => True)
+      (fun s' f' h _ => hrec s' f' _ wt h.1 (h.2.nodes _ e.2.1) (h.2.nodes _ (e.1.2.nodes _ ht))) _ e.1.1
+      (fun _ _ => trivial)
+
+theorem keeps_inferSupers {q : Quirks} {S : Schema} {a : Alloc σ} (ha : a.Valid) {rec} (hrec : RecOK q rec)
+    (s : St σ) (f : Fld) (ws wt : W) (hI : Inv q s) (hs : ws ∈ s.g.nodes) (ht : wt ∈ s.g.nodes) :
+    Keeps q s (inferSupers S a rec s f ws wt) := by
   unfold inferSupers
-  exact foldl_pres (Keeps q st0) _ (fun _ => True) (fun s f' h _ => hrec s f' ws wt h hs ht) _ s hk
-    (fun _ _ => trivial)
+  have k1 : Keeps q s ((S.supers f ws.cls).foldl (fun st f' => rec st f' ws wt) s) :=
+    keeps_foldl _ _ (fun _ => True) (fun s' f' h _ => hrec s' f' ws wt h.1 (h.2.nodes _ hs) (h.2.nodes _ ht)) _ hI
+      (fun _ _ => trivial)
+  exact k1.trans (keeps_inferTakerSupers ha hrec _ f ws wt k1.1 (k1.2.nodes _ ht))
 
-theorem keeps_inferInverse {q : Quirks} {S : Schema} {st0 : St σ} {rec} (hrec : RecOK q st0 rec) (s : St σ)
-    (f : Fld) (ws wt : W) (hk : Keeps q st0 s) (hs : ws ∈ st0.g.nodes) (ht : wt ∈ st0.g.nodes) :
-    Keeps q st0 (inferInverse S rec s f ws wt) := by
+theorem keeps_inferInverse {q : Quirks} {S : Schema} {a : Alloc σ} (ha : a.Valid) {rec} (hrec : RecOK q rec)
+    (s : St σ) (f : Fld) (ws wt : W) (hI : Inv q s) (hs : ws ∈ s.g.nodes) (ht : wt ∈ s.g.nodes) :
+    Keeps q s (inferInverse S a rec s f ws wt) := by
   unfold inferInverse
   split
-  · exact hrec _ _ _ _ hk ht hs
-  · exact hk
+  · exact hrec _ _ _ _ hI ht hs
+  split
+  · exact Keeps.refl hI
+  split
+  · exact Keeps.refl hI
+  split
+  · exact Keeps.refl hI
+  · rename_i x hx
+    have e := keeps_ensureSt ha hI x (takerOf_live hx)
+    exact e.1.trans (hrec _ _ _ _ e.1.1 e.2.1 (e.1.2.nodes _ hs))
 
-theorem keeps_deadEnd {q : Quirks} {st0 : St σ} (s : St σ) (f : Fld) (ws wt : W) (hk : Keeps q st0 s) :
-    Keeps q st0 (deadEnd q s f ws wt) := by
+theorem keeps_deadEnd {q : Quirks} (s : St σ) (f : Fld) (ws wt : W) (hI : Inv q s) :
+    Keeps q s (deadEnd q s f ws wt) := by
   unfold deadEnd
   split
   · rename_i hq
-    exact ⟨hk.1.flags _ _ _ (fun _ => ⟨rfl, hq⟩) hk.1.noHit, hk.2.trans ⟨rfl, rfl⟩⟩
-  · exact ⟨hk.1.flags _ _ _ (fun h => ⟨rfl, (hk.1.errFlag h).2⟩) hk.1.noHit, hk.2.trans ⟨rfl, rfl⟩⟩
+    exact ⟨hI.flags _ _ _ (fun _ => ⟨rfl, hq⟩) hI.noHit, ⟨fun _ h => h, rfl, fun _ h => h⟩⟩
+  · exact ⟨hI.flags _ _ _ (fun h => ⟨rfl, (hI.errFlag h).2⟩) hI.noHit, ⟨fun _ h => h, rfl, fun _ h => h⟩⟩
 
-theorem keeps_inferOut {q : Quirks} {S : Schema} {st0 : St σ} {rec} (hrec : RecOK q st0 rec) (s : St σ)
-    (f : Fld) (ws wt : W) (hk : Keeps q st0 s) (hs : ws ∈ st0.g.nodes) :
-    Keeps q st0 (inferOut q S rec s f ws wt) := by
+theorem keeps_inferOut {q : Quirks} {S : Schema} {rec} (hrec : RecOK q rec) (s : St σ)
+    (f : Fld) (ws wt : W) (hI : Inv q s) (hs : ws ∈ s.g.nodes) :
+    Keeps q s (inferOut q S rec s f ws wt) := by
   unfold inferOut
-  refine foldl_pres (Keeps q st0) _ (fun e => e.tgt ∈ st0.g.nodes) ?_ _ s hk ?_
+  refine keeps_foldl _ _ (fun e => e.tgt ∈ s.g.nodes) ?_ _ hI ?_
   · intro s' e h he
     split
-    · exact hrec _ _ _ _ h hs he
-    · exact keeps_deadEnd _ _ _ _ h
+    · exact hrec _ _ _ _ h.1 (h.2.nodes _ hs) (h.2.nodes _ he)
+    · exact keeps_deadEnd _ _ _ _ h.1
   · intro e he
-    have := (hk.1.edgeNodes e (List.mem_filter.1 (List.mem_reverse.1 he)).1).2
-    rwa [hk.2.nodes] at this
+    exact (hI.edgeNodes e (List.mem_filter.1 (List.mem_reverse.1 he)).1).2
 
-theorem keeps_inferIn {q : Quirks} {S : Schema} {st0 : St σ} {rec} (hrec : RecOK q st0 rec) (s : St σ)
-    (f : Fld) (ws wt : W) (hk : Keeps q st0 s) (ht : wt ∈ st0.g.nodes) :
-    Keeps q st0 (inferIn q S rec s f ws wt) := by
+theorem keeps_inferIn {q : Quirks} {S : Schema} {rec} (hrec : RecOK q rec) (s : St σ)
+    (f : Fld) (ws wt : W) (hI : Inv q s) (ht : wt ∈ s.g.nodes) :
+    Keeps q s (inferIn q S rec s f ws wt) := by
   unfold inferIn
-  refine foldl_pres (Keeps q st0) _ (fun e => e.src ∈ st0.g.nodes) ?_ _ s hk ?_
+  refine keeps_foldl _ _ (fun e => e.src ∈ s.g.nodes) ?_ _ hI ?_
   · intro s' e h he
     split
-    · exact hrec _ _ _ _ h he ht
-    · exact keeps_deadEnd _ _ _ _ h
+    · exact hrec _ _ _ _ h.1 (h.2.nodes _ he) (h.2.nodes _ ht)
+    · exact keeps_deadEnd _ _ _ _ h.1
   · intro e he
-    have := (hk.1.edgeNodes e (List.mem_filter.1 (List.mem_reverse.1 he)).1).1
-    rwa [hk.2.nodes] at this
+    exact (hI.edgeNodes e (List.mem_filter.1 (List.mem_reverse.1 he)).1).1
 
-theorem keeps_inferTransitive {q : Quirks} {S : Schema} {st0 : St σ} {rec} (hrec : RecOK q st0 rec) (s : St σ)
-    (f : Fld) (ws wt : W) (hk : Keeps q st0 s) (hs : ws ∈ st0.g.nodes) (ht : wt ∈ st0.g.nodes) :
-    Keeps q st0 (inferTransitive q S rec s f ws wt) := by
+theorem keeps_inferTransitive {q : Quirks} {S : Schema} {rec} (hrec : RecOK q rec) (s : St σ)
+    (f : Fld) (ws wt : W) (hI : Inv q s) (hs : ws ∈ s.g.nodes) (ht : wt ∈ s.g.nodes) :
+    Keeps q s (inferTransitive q S rec s f ws wt) := by
   unfold inferTransitive
   split
-  · exact keeps_inferIn hrec _ _ _ _ (keeps_inferOut hrec _ _ _ _ hk hs) ht
-  · exact hk
+  · have k1 := keeps_inferOut (S := S) hrec s f ws wt hI hs
+    exact k1.trans (keeps_inferIn hrec _ _ _ _ k1.1 (k1.2.nodes _ ht))
+  · exact Keeps.refl hI
 
 theorem keeps_record {q : Quirks} {S : Schema} {st : St σ} (hI : Inv q st) (f : Fld) (ws wt : W) (inf : Bool)
     (hs : ws ∈ st.g.nodes) (ht : wt ∈ st.g.nodes) : Keeps q st (record S st f ws wt inf) := by
   unfold record
   have h1 := hI.addEdge f ws wt inf hs ht
   split
-  · exact ⟨h1.heap_irrelevant _ (by simp) (by simp) (by simp), ⟨rfl, rfl⟩⟩
-  · exact ⟨h1, ⟨rfl, rfl⟩⟩
+  · exact ⟨h1.heap_irrelevant _ (by simp) (by simp) (by simp), ⟨fun _ h => h, rfl, fun _ h => h⟩⟩
+  · exact ⟨h1, ⟨fun _ h => h, rfl, fun _ h => h⟩⟩
 
 theorem keeps_known {q : Quirks} {st : St σ} (hI : Inv q st) (f : Fld) (ws wt : W) (hs : ws ∈ st.g.nodes)
     (ht : wt ∈ st.g.nodes) (hre : relationExists st.g f ws wt = true) : Keeps q st (known st f ws wt) := by
-  refine ⟨hI.flags _ _ _ hI.errFlag ?_, ⟨rfl, rfl⟩⟩
+  refine ⟨hI.flags _ _ _ hI.errFlag ?_, ⟨fun _ h => h, rfl, fun _ h => h⟩⟩
   intro hr
   rw [hI.noHit hr, hI.exists_exact hr f ws wt hs ht hre]
   rfl
 
-/-- `PropertyDescriptorRelation.add_to_graph` keeps the registry consistent and touches neither the nodes nor the
-set of live instances -/
-theorem Inv.addFact {q : Quirks} (S : Schema) : ∀ (fuel : Nat) (st : St σ) (f : Fld) (ws wt : W) (inf : Bool),
-    Inv q st → ws ∈ st.g.nodes → wt ∈ st.g.nodes → Keeps q st (SG.addFact q S fuel st f ws wt inf)
+/-- `PropertyDescriptorRelation.add_to_graph` keeps the registry consistent, removes no node (it may wrap role takers)
+and does not touch the set of live instances -/
+theorem Inv.addFact {q : Quirks} (S : Schema) {a : Alloc σ} (ha : a.Valid) :
+    ∀ (fuel : Nat) (st : St σ) (f : Fld) (ws wt : W) (inf : Bool),
+    Inv q st → ws ∈ st.g.nodes → wt ∈ st.g.nodes → Keeps q st (SG.addFact q S a fuel st f ws wt inf)
   | 0, st, f, ws, wt, inf, hI, _, _ => ⟨hI, Frame.refl _⟩
   | fuel + 1, st, f, ws, wt, inf, hI, hs, ht => by
     unfold SG.addFact
@@ -705,13 +763,12 @@ theorem Inv.addFact {q : Quirks} (S : Schema) : ∀ (fuel : Nat) (st : St σ) (f
     split
     · rename_i hre
       exact keeps_known hI f ws wt hs ht hre
-    have hrec : RecOK q st (fun st f ws wt => SG.addFact q S fuel st f ws wt true) := by
-      intro s f' a b hk ha hb
-      have := Inv.addFact S fuel s f' a b true hk.1 (hk.2.nodes ▸ ha) (hk.2.nodes ▸ hb)
-      exact ⟨this.1, hk.2.trans this.2⟩
-    exact keeps_inferTransitive hrec _ _ _ _
-      (keeps_inferInverse hrec _ _ _ _ (keeps_inferSupers hrec _ _ _ _ (keeps_record hI f ws wt inf hs ht) hs ht) hs ht)
-      hs ht
+    have hrec : RecOK q (fun st f ws wt => SG.addFact q S a fuel st f ws wt true) :=
+      fun s f' x y hI' hx hy => Inv.addFact S ha fuel s f' x y true hI' hx hy
+    have k0 := keeps_record (S := S) hI f ws wt inf hs ht
+    have k1 := k0.trans (keeps_inferSupers (S := S) ha hrec _ f ws wt k0.1 (k0.2.nodes _ hs) (k0.2.nodes _ ht))
+    have k2 := k1.trans (keeps_inferInverse (S := S) ha hrec _ f ws wt k1.1 (k1.2.nodes _ hs) (k1.2.nodes _ ht))
+    exact k2.trans (keeps_inferTransitive (S := S) hrec _ f ws wt k2.1 (k2.2.nodes _ hs) (k2.2.nodes _ ht))
 
 
 /-- both ends of a relation are wrapped (`PredicateClassRelation.__post_init__`) -/
@@ -785,9 +842,9 @@ theorem C13_inv_step (q : Quirks) (S : Schema) (a : Alloc σ) (ha : a.Valid) (st
       split
       · have h0 : Inv q { st with h := st.h.write S f s t } := hI.heap_irrelevant _ (by simp) (by simp) (by simp)
         have e := h0.ensure2 ha xs xt (by simpa using (find_some hs).1) (by simpa using (find_some ht).1)
-        exact ((e.1.addFact S S.fuel _ f _ _ false e.2.1 e.2.2.1).1).collect
+        exact ((e.1.addFact S ha S.fuel _ f _ _ false e.2.1 e.2.2.1).1).collect
       · have e := hI.ensure2 ha xs xt (find_some hs).1 (find_some ht).1
-        have k := e.1.addFact S S.fuel _ f _ _ false e.2.1 e.2.2.1
+        have k := e.1.addFact S ha S.fuel _ f _ _ false e.2.1 e.2.2.1
         split
         · exact k.1
         · exact k.1.heap_irrelevant _ (by simp) (by simp) (by simp)
@@ -814,6 +871,27 @@ theorem C13_inv_step (q : Quirks) (S : Schema) (a : Alloc σ) (ha : a.Valid) (st
       · exact hI
       · exact Inv.collect' (hI.heap_irrelevant _ (by unfold Heap.dropQuery; split <;> rfl)
           (by unfold Heap.dropQuery; split <;> rfl) (by unfold Heap.dropQuery; split <;> rfl))
+  | newrole o c pid e =>
+    dsimp only
+    split
+    · exact hI
+    · rename_i hc
+      simp only [Bool.or_eq_true, List.contains_iff_mem, List.any_eq_true, beq_iff_eq, not_or, not_exists,
+        not_and] at hc
+      have := hI.addNode ha ⟨o, c, pid⟩
+        { st.h with live := st.h.live ++ [⟨o, c, pid⟩], used := st.h.used ++ [o], held := st.h.held ++ [o],
+                    epoch := st.h.epoch ++ [o],
+                    fields := match S.takerFld c with
+                              | some tf => st.h.fields ++ [⟨o, tf, e⟩]
+                              | none => st.h.fields }
+        (by intro y hy; simpa using hy)
+        (by intro y hy ho; have ho' : y.obj = o := ho; exact absurd (ho' ▸ hI.liveUsed y hy) hc.1.1)
+        (by intro y hy hp; exact absurd hp (hc.1.2 y hy))
+        (by intro o'; simp)
+        (by intro o'; simp)
+        (by intro w hw ho; have ho' : w.obj = o := ho; exact hc.1.1 (ho' ▸ hI.nodeUsed w hw))
+        (by intro kw hkw ho; have ho' : kw.2.obj = o := ho; exact absurd (ho' ▸ hI.instUsed kw hkw) hc.1.1)
+      exact this
 
 /-- **C13_inv_run.** the registry is consistent after every history -/
 theorem C13_inv_run (q : Quirks) (S : Schema) (a : Alloc σ) (ha : a.Valid) (ops : List Op) :
